@@ -38,7 +38,59 @@ fn tdepth(s: &TState) -> Option<usize> { s.layer.map(|l| l as usize) }
 
 #[derive(Default)]
 struct DdStats { relaxed: u64, relaxed_exact: u64, relaxed_inexact: u64, restricted: u64, restricted_inexact: u64, exact: u64, aborted: u64, cutset_nodes: u64, completions_checked: u64,
-    frontier_multi_layer: u64, infeasible_root: u64, lb_above: u64, reuse_after_abort: u64, exact_best_path_with_merges: u64, recycled: u64, merges: u64 }
+    frontier_multi_layer: u64, infeasible_root: u64, lb_above: u64, reuse_after_abort: u64, exact_best_path_with_merges: u64, recycled: u64, merges: u64, thresholds_checked: u64, thresholds_skipped: u64, thresholds_dead_end: u64, thresholds_tight: u64 }
+
+/// A cache that stays EMPTY for the diagram (every lookup answers "no threshold": the compilation runs in isolation, as C06-C08
+/// require) but records every threshold the compilation wants to publish, for the threshold-soundness oracle (C09).
+#[derive(Default)]
+struct RecCache { rec: std::sync::Mutex<Vec<(TState, usize, isize, bool)>> }
+impl Cache for RecCache {
+    type State = TState;
+    fn initialize(&mut self, _: &dyn Problem<State = TState>) {}
+    fn get_threshold(&self, _: &TState, _: usize) -> Option<Threshold> { None }
+    fn update_threshold(&self, state: Arc<TState>, depth: usize, value: isize, explored: bool) { self.rec.lock().unwrap().push((state.as_ref().clone(), depth, value, explored)); }
+    fn clear_layer(&self, _: usize) {}
+    fn clear(&self) {}
+}
+const T_INF: Wide = Wide::MAX / 4;
+/// Largest SOUND threshold of every exact state (layer, base), from the reference model alone. An arrival with value w at (l, a)
+/// may be discarded iff every completion of it either is worth at most `incumbent` in total, or goes through a sub-problem that was
+/// handed out (`covered`: (depth, base) -> value v0) with an arrival value <= v0 (that sub-problem's own exploration subsumes it).
+/// T[l][a] = the largest such w (T_INF when (l, a) has no completion at all). Backward DP; arrival values only enter monotonically.
+fn sound_thresholds(inst: &Inst, incumbent: Wide, covered: &[(usize, usize, isize)]) -> Vec<Vec<Wide>> {
+    let t = &inst.t;
+    let mut tt = vec![vec![T_INF; t.s]; t.n + 1];
+    for a in 0..t.s { tt[t.n][a] = incumbent; }
+    for l in (0..t.n).rev() {
+        for a in 0..t.s {
+            let mut base = T_INF;
+            if t.irrelevant[l][a] { base = tt[l + 1][a]; }
+            else { for b in 0..t.d { if let Some(x) = t.next[l][a][b] { let c = tt[l + 1][x as usize]; if c < T_INF { base = base.min(c - t.cost[l][a][b] as Wide); } } } }
+            tt[l][a] = base;
+        }
+        for (d, a, v0) in covered.iter() { if *d == l && tt[l][*a] < T_INF { tt[l][*a] = tt[l][*a].max(*v0 as Wide); } }
+    }
+    tt
+}
+/// C09 at the source: every threshold published by a completed compilation is compared with the largest sound one
+fn check_thresholds(inst: &Inst, rec: &[(TState, usize, isize, bool)], incumbent: Wide, covered: &[(usize, usize, isize)], ctx: &str, st: &mut DdStats, out: &mut Vec<Violation>) {
+    if rec.is_empty() { return; }
+    let tt = sound_thresholds(inst, incumbent, covered);
+    for (state, depth, theta, explored) in rec.iter() {
+        if state.set.count_ones() != 1 || *depth > inst.t.n || state.layer.map_or(false, |l| l as usize != *depth) { st.thresholds_skipped += 1; continue; }
+        let a = state.set.trailing_zeros() as usize;
+        st.thresholds_checked += 1;
+        let sound = tt[*depth][a];
+        if sound >= T_INF { st.thresholds_dead_end += 1; continue; }
+        // (theta, explored): arrivals with value <= theta are discarded; (theta, not explored): arrivals with value < theta are
+        let discards_up_to = *theta as Wide - if *explored { 0 } else { 1 };
+        if discards_up_to == sound { st.thresholds_tight += 1; }
+        if discards_up_to > sound {
+            out.push(v(&["C09"], "cache-threshold-unsound", format!("threshold ({theta}, explored = {explored}) published for state {:?} at depth {depth} discards an arrival with value {}, but the largest sound threshold is {sound}: such an arrival has a completion worth more than the incumbent {incumbent} that goes through no handed-out sub-problem of at least its value {:?}; {ctx}", state, discards_up_to.min(sound + 1), covered)));
+            break;
+        }
+    }
+}
 
 /// executes a history on ONE diagram object and judges every completed compilation
 fn exec_dd_history<D: DecisionDiagram<State = TState> + Default>(inst: &Inst, ops: &[CompileOp], st: &mut DdStats, polls_out: &mut Vec<usize>) -> Vec<Violation> {
@@ -50,7 +102,7 @@ fn exec_dd_history<D: DecisionDiagram<State = TState> + Default>(inst: &Inst, op
     let rlx_inner = TRelax(inst);
     let rlx = MonRelax { pb: &pb, inner: &rlx_inner };
     let rank = TRank(inst.t.rank_seed);
-    let cache = EmptyCache::new();
+    let cache = RecCache::default();
     let dom = EmptyDominanceChecker::default();
     let mut dd = D::default();
     let mut out = vec![];
@@ -60,6 +112,7 @@ fn exec_dd_history<D: DecisionDiagram<State = TState> + Default>(inst: &Inst, op
         let root = SubProblem { state: Arc::new(inst.state_of(op.layer, op.base)), value: op.value, path: to_sol(&op.path), ub: isize::MAX, depth: op.layer };
         let cutoff = SimCutoff::new(match op.cutoff_at { Some(j) => CutPlan::At(j), None => CutPlan::Never });
         let input = CompilationInput { comp_type: ct, problem: &pb, relaxation: &rlx, ranking: &rank, cutoff: &cutoff, max_width: op.width, residual: &root, best_lb: op.lb, cache: &cache, dominance: &dom };
+        cache.rec.lock().unwrap().clear();
         monitor::on_explicit_compile(op.width, op.layer, op.ctype);
         let res = std::panic::catch_unwind(std::panic::AssertUnwindSafe(|| dd.compile(&input)));
         monitor::on_compile_end();
@@ -84,6 +137,9 @@ fn exec_dd_history<D: DecisionDiagram<State = TState> + Default>(inst: &Inst, op
         if completion.best_value != dd.best_value() || completion.is_exact != dd.is_exact() {
             out.push(v(&[if op.ctype == 1 { "C06" } else { "C07" }], "completion-mismatch", format!("Completion {:?}/{} vs accessors {:?}/{}; {ctx}", completion.best_value, completion.is_exact, dd.best_value(), dd.is_exact())));
         }
+        // sub-problems handed out and worth enqueueing (ub above the incumbent): Some(..) when the compilation publishes thresholds
+        let mut covered: Option<Vec<(usize, usize, isize)>> = None;
+        let incumbent: Wide = lbw.max(dd.best_exact_value().map_or(NEG * 4, |b| b as Wide));
         match op.ctype {
             1 => {
                 st.relaxed += 1;
@@ -92,6 +148,7 @@ fn exec_dd_history<D: DecisionDiagram<State = TState> + Default>(inst: &Inst, op
                 }
                 if dd.is_exact() {
                     st.relaxed_exact += 1;
+                    covered = Some(vec![]);
                     if monitor::MERGE_CALLS.load(std::sync::atomic::Ordering::Relaxed) > 0 { st.exact_best_path_with_merges += 1; }
                     let bev = dd.best_exact_value();
                     if let Some(b) = bev {
@@ -137,6 +194,7 @@ fn exec_dd_history<D: DecisionDiagram<State = TState> + Default>(inst: &Inst, op
                         }
                         cs_pos.push((c.depth, b));
                     }
+                    covered = Some(cs.iter().filter(|c| c.state.set.count_ones() == 1 && c.ub as Wide > incumbent).map(|c| (c.depth, c.state.set.trailing_zeros() as usize, c.value)).collect());
                     // coverage (iv): every completion of the root that beats incumbent and best exact value goes through a handed-out node
                     if inst.t.n <= 6 && opt_r > NEG {
                         let thr = lbw.max(bev.unwrap_or(isize::MIN) as Wide);
@@ -155,7 +213,7 @@ fn exec_dd_history<D: DecisionDiagram<State = TState> + Default>(inst: &Inst, op
             }
             2 => {
                 st.restricted += 1;
-                if !completion.is_exact { st.restricted_inexact += 1; }
+                if !completion.is_exact { st.restricted_inexact += 1; } else { covered = Some(vec![]); }
                 if let Some(b) = dd.best_value() {
                     if opt_r == NEG || b as Wide > opt_r { out.push(v(&["C07"], "restricted-above-optimum", format!("restricted best_value {b} > sub-problem optimum {}; {ctx}", if opt_r == NEG { "-inf".to_string() } else { opt_r.to_string() }))); }
                     match replay_full(dd.best_solution()) {
@@ -168,9 +226,14 @@ fn exec_dd_history<D: DecisionDiagram<State = TState> + Default>(inst: &Inst, op
             }
             _ => {
                 st.exact += 1;
+                covered = Some(vec![]);
                 if beats && dd.best_value().map(|b| b as Wide) != Some(opt_r) { out.push(v(&["C07"], "exact-mode-not-optimum", format!("exact-mode compilation yields {:?}, sub-problem optimum {opt_r}; {ctx}", dd.best_value()))); }
                 if let Some(b) = dd.best_value() { if opt_r == NEG || b as Wide > opt_r { out.push(v(&["C07"], "exact-mode-above-optimum", format!("exact-mode value {b} above optimum; {ctx}"))); } }
             }
+        }
+        if let (Some(cov), true) = (covered.as_ref(), all_relevant) {
+            let rec = cache.rec.lock().unwrap().clone();
+            check_thresholds(inst, &rec, incumbent, cov, &ctx, st, &mut out);
         }
     }
     st.recycled += monitor::RECYCLED_MERGES.load(std::sync::atomic::Ordering::Relaxed) as u64;
@@ -212,6 +275,7 @@ fn record_dd(agg: &mut Agg, st: &DdStats) {
     agg.add("completions_checked_for_coverage", st.completions_checked); agg.add("probe:frontier_cutset_spanning_>=2_layers", st.frontier_multi_layer);
     agg.add("probe:infeasible_subproblem", st.infeasible_root); agg.add("probe:incumbent_at_or_above_optimum", st.lb_above); agg.add("probe:exact_best_path_claim_with_merges_present", st.exact_best_path_with_merges);
     agg.add("probe:merged_state_equal_to_a_kept_node(recycled)", st.recycled); agg.add("mon_merge_calls", st.merges);
+    agg.add("thresholds_checked", st.thresholds_checked); agg.add("thresholds_skipped(merged state or long arc)", st.thresholds_skipped); agg.add("thresholds_of_dead_end_states", st.thresholds_dead_end); agg.add("probe:published_threshold_equals_largest_sound_one", st.thresholds_tight);
 }
 
 fn run_dd_history(arm: &str, seed: u64, run: u64, agg: &mut Agg, explicit: Option<(&Table, Dd, &[CompileOp])>) -> Option<ViolationRecord> {
@@ -222,7 +286,7 @@ fn run_dd_history(arm: &str, seed: u64, run: u64, agg: &mut Agg, explicit: Optio
             let long_arcs = arm == "dd-history-longarc";
             let narrow = arm == "dd-history-narrow";
             let mut trng = rng.fork(1);
-            let mut t = Table::generate(&mut trng, GenOpts { depth_free: arm == "dd-history-depthfree", long_arcs, max_n: 6, max_s: 6, reconverge: false, dom_friendly: false, few_dead_arcs: narrow, knapsack_quarters: 0, top_merge_quarters: if narrow { 2 } else { 1 }, abyss_one_in: if long_arcs { 0 } else { 10 } });
+            let mut t = Table::generate(&mut trng, GenOpts { depth_free: arm == "dd-history-depthfree", long_arcs, max_n: 6, max_s: 6, reconverge: false, dom_friendly: false, few_dead_arcs: narrow, knapsack_quarters: 0, top_merge_quarters: if narrow { 2 } else { 1 }, abyss_one_in: if long_arcs { 0 } else { 10 }, penalty_one_in: 10 });
             if arm == "dd-history" && rng.chance(1, 3) { t.rub = Rub::None; }
             let dd = *rng.pick(&[Dd::Lel, Dd::Fc, Dd::Pooled]);
             let inst = Inst::new(t.clone());
